@@ -47,8 +47,9 @@ type encCase struct {
 	// Evolved (compile-time types only): before the encoder under test is created the
 	// process reads, into the same Go type, a file written under another generation of
 	// the type's schema (same record name, top-level fields in reverse order) — 1: a
-	// header-only file; 2: a file holding the case's first record. Ordinary schema
-	// evolution on the read side; what is written afterwards must not depend on it.
+	// header-only file; 2: a file holding the case's first record; 3: header-only, and the
+	// other generation lacks the type's last field. Ordinary schema evolution on the
+	// read side; what is written (and read) afterwards must not depend on it.
 	Evolved int `json:"evolved,omitempty"`
 }
 
@@ -232,6 +233,9 @@ func readEvolvedFirst(c encCase, typ reflect.Type) {
 	for i, f := range rs.Fields {
 		rev.Fields[n-1-i] = f
 	}
+	if c.Evolved == 3 {
+		rev.Fields = rev.Fields[1:] // the reversed list begins with the type's last field
+	}
 	fs := ref.FileSpec{Schema: []byte(ref.Render(rev, nil)), Codec: "null"}
 	if c.Evolved == 2 && len(c.Records) > 0 {
 		// the first record, written by a first encoder, re-encoded under the other generation
@@ -275,9 +279,12 @@ func drawEncCase(t *rapid.T) encCase {
 	if rapid.IntRange(0, 4).Draw(t, "useCatalogue") == 0 {
 		name := rapid.SampledFrom(cat.Names(true)).Draw(t, "cat")
 		c.Type = cat.Get(name).Spec
-		c.Evolved = []int{0, 0, 0, 0, 1, 2}[gen.Uniform(t, "evolved", 6)]
+		c.Evolved = []int{0, 0, 0, 0, 1, 2, 3}[gen.Uniform(t, "evolved", 7)]
 	} else {
 		c.Type = gen.StructType(t, typeOptsForTier(), 1)
+		// reflect.StructOf returns the same type for the same structure: process state
+		// keyed by type carries over between cases for these as well
+		c.Evolved = []int{0, 0, 0, 0, 0, 0, 0, 0, 1, 2, 3}[gen.Uniform(t, "evolvedDyn", 11)]
 	}
 	c.GoType = c.Type.GoString()
 	n := gen.UniformRange(t, "nrecords", 0, 8)
@@ -364,6 +371,12 @@ func encLabels(c encCase, in []spec.AbsVal, blocks int) (nontrivial bool, labels
 	if c.Evolved != 0 {
 		labels = append(labels, "evolved_file_read_first")
 	}
+	for _, r := range c.Records {
+		if hasRep(r) {
+			labels = append(labels, "slice_of_more_than_65000_items")
+			break
+		}
+	}
 	for _, k := range []string{"slice", "map", "ptr", "time", "nullInt", "nullString", "int16", "float32", "bytes"} {
 		kk := k
 		if c.Type.Contains(func(t spec.TypeSpec) bool { return t.K == kk }) {
@@ -399,6 +412,26 @@ func encLabels(c encCase, in []spec.AbsVal, blocks int) (nontrivial bool, labels
 	}
 	nontrivial = len(c.Records) >= 2 && (blocks >= 2 || nan) && composite
 	return
+}
+
+func hasRep(v spec.ValueSpec) bool {
+	if v.Rep > 0 {
+		return true
+	}
+	if v.P != nil && hasRep(*v.P) {
+		return true
+	}
+	for _, f := range v.Fields {
+		if hasRep(f) {
+			return true
+		}
+	}
+	for _, e := range v.Elems {
+		if hasRep(e) {
+			return true
+		}
+	}
+	return false
 }
 
 func countBlocks(file []byte) int {
